@@ -265,6 +265,11 @@ class chk_proxy(object):
     def floor(self, *a, **kw):
         return self._chk.floor(*a, **kw)
 
+    def rule(self, rule, text):
+        rid = self._map.get(rule, rule)
+        if rid not in getattr(self._chk, 'rules', {}):
+            return self._chk.rule(rid, text)
+
     @property
     def extra(self):
         return self._chk.extra
